@@ -35,6 +35,23 @@ fn rv_new_contract_le2() {
         Err(_) => { assert!(false); }
     }
 }
+#[kani::proof]
+#[kani::unwind(4)]
+fn rv_new_contract_d1() {
+    let n: usize = kani::any();
+    kani::assume(n <= 2);
+    let b0: (f64, f64) = (kani::any(), kani::any());
+    let b1: (f64, f64) = (kani::any(), kani::any());
+    let bounds = Some(if n == 0 { vec![] } else if n == 1 { vec![b0] } else { vec![b0, b1] });
+    let r = RealVectorStateSpace::new(1, bounds);
+    kani::cover!(r.is_ok());
+    match r {
+        Ok(sp) => { assert!(n == 1 && sp.dimension == 1 && sp.bounds.len() == 1 && sp.bounds[0].0 < sp.bounds[0].1); }
+        Err(StateSpaceError::DimensionMismatch { expected, found }) => { assert!(n != 1 && expected == 1 && found == n); }
+        Err(StateSpaceError::InvalidBound { lower, upper }) => { assert!(n == 1 && !(lower < upper)); }
+        Err(_) => { assert!(false); }
+    }
+}
 // C06 (d)  (EXPECTED TO FAIL: fraction <= 0 stores 0 — known finding)
 #[kani::proof]
 #[kani::unwind(4)]
